@@ -603,6 +603,7 @@ ARG_RULES = {'R20': rule_R20, 'R21': rule_R21, 'R4': rule_R4, 'R5': rule_R5, 'R5
 
 # ---------------------------------------------------------------- function assembly
 
+FORCE_STUB = set()   # (file, fn name, within): functions reduced to signature + contract (body not looked at) for this run
 RENAMES = {}     # (file, fn name, within) -> {old local / parameter name: new name}: set by bin/check when a rename is detected
 
 def bound_names(code):
@@ -1209,7 +1210,16 @@ def build_unit(verif, repo, template_path, canary=False, soft=False, extra_fns=N
                     else:
                         cur.append(lines[i])
                     i += 1
-                pieces = assemble_fn(repo, fs, u.functions, canary, soft=(u.degraded if soft else None))
+                forced = (fs.file, fs.name, fs.within) in FORCE_STUB
+                if forced:
+                    # a function OUTSIDE the property's closure that does not compile on this tree: keep its signature and
+                    # contract only, so that the rest of the unit can still be judged
+                    pieces = assemble_fn(repo, fs, u.functions, None, stub=True, soft=(u.degraded if soft else None))
+                    u.functions[-1]['forced_stub'] = True
+                    u.degraded.append('%s reduced to its signature (it does not compile in the verifier on this tree and no function of this property calls it)' % fs.name)
+                    emit('#[verifier::external_body]\n', 'TPL', '%s:%d' % (rel, fs.tline))
+                else:
+                    pieces = assemble_fn(repo, fs, u.functions, canary, soft=(u.degraded if soft else None))
                 w = fs.within.split(' for ')[-1] if fs.within else None
                 if w: w = re.sub(r'<.*', '', w).strip()
                 u.functions[-1]['vname'] = '::'.join(state['mods'] + ([w] if w else []) + [fs.name])
